@@ -163,7 +163,19 @@ pub fn replay_dig_file(path: &str, seed: u64) -> J {
             }
         };
         let want_ok = b["ok"].as_bool().unwrap();
-        match guarded(|| dig::File::parse(&xml)) {
+        // the three public ways into the loader: File::parse, FromStr, File::open (through a scratch file next to the behaviours)
+        let parsed = match (i + renaming) % 6 {
+            4 => guarded(|| xml.parse::<dig::File>()),
+            5 => {
+                let tmp = format!("{path}.{}.dig", std::process::id());
+                std::fs::write(&tmp, &xml).expect("scratch .dig file");
+                let r = guarded(|| dig::File::open(&tmp));
+                let _ = std::fs::remove_file(&tmp);
+                r
+            }
+            _ => guarded(|| dig::File::parse(&xml)),
+        };
+        match parsed {
             Err(p) => mm("panic", json!(want_ok), json!(p)),
             Ok(Err(e)) => {
                 if want_ok {
